@@ -109,13 +109,16 @@ def formatter_case(old_src, new_src, leafvals, approved):
 def hash_seed_processes():
     """contract validation: two real pytest processes with different PYTHONHASHSEED create identical files"""
     text = ("from inline_snapshot import snapshot\n\n\ndef test_a():\n    assert {'b', 'a', 'c', 'zz', 'q'} == snapshot()\n    assert frozenset({3, 1, 2}) == snapshot()\n"
-            "    assert {('x', 1), ('a', 2)} == snapshot()\n    assert {'k2': 1, 'k1': {1.5, 'm', None}} == snapshot()\n    assert [set(), {b'b', 'a', 1}] == snapshot()\n")
+            "    assert {('x', 1), ('a', 2)} == snapshot()\n    assert {'k2': 1, 'k1': {1.5, 'm', None}} == snapshot()\n    assert [set(), {b'b', 'a', 1}] == snapshot()\n"
+            "    assert {frozenset({'x', 'b'}), frozenset({'p', 'y'}), frozenset({'k', 'z'}), 1j} == snapshot()\n"
+            "    assert {frozenset({'x', 'b', 'q'}), frozenset({'p', 'y'}), ('t', frozenset({'u', 'v', 'w'})), None} == snapshot()\n"
+            "    assert frozenset({frozenset({'aa', 'bb', 'cc'}), frozenset({'dd', 'ee'}), 'zz'}) == snapshot()\n")
     outs = []
-    for seed in ("0", "1", "12345"):
+    for seed in ("0", "1", "2", "3", "12345"):
         rc, out, after, _ = world.real_pytest({"test_a.py": text}, ["--inline-snapshot=create"], env={"PYTHONHASHSEED": seed})
         outs.append(after["test_a.py"])
-    PathLog.record("hashseed" + outs[0], nontrivial=True, sample={"hash_seeds": ["0", "1", "12345"], "identical": outs[0] == outs[1] == outs[2], "file": outs[0][-300:]})
-    return outs[0] == outs[1] == outs[2] and "snapshot()" not in outs[0]
+    PathLog.record("hashseed" + outs[0], nontrivial=True, sample={"hash_seeds": ["0", "1", "2", "3", "12345"], "identical": len(set(outs)) == 1, "file": outs[0][-300:]})
+    return len(set(outs)) == 1 and "snapshot()" not in outs[0]
 
 
 GLB = {"set_order_case": set_order_case, "formatter_case": formatter_case, "__name__": "harness.c16"}
@@ -148,7 +151,7 @@ def conditions(tier):
         conds.append(Cond(name, mkfn(name, [(x, "int") for x in names], body, GLB), timeout=900, group="formatter",
                           bounds=f"previous `{o or '<empty>'}`, observed `{n}`, approved {sorted(appr)}: rewritten under real black / black missing / identity format-command"))
     conds.append(Cond("setorder_twin", mkfn("setorder_twin", [("e0", "int"), ("e1", "int"), ("perm", "int")], "return set_order_case(2, [e0, e1], perm, 'set', False)", GLB, pre=["e0 != e1", "0 <= perm < 2"], post="not _"), timeout=60, twin=True))
-    conds.append(Cond("hash_seed_processes", hash_seed_processes, concrete=True, group="contract-validation", bounds="3 real pytest processes (PYTHONHASHSEED 0 / 1 / 12345) creating sets of str/int/tuple/bytes: byte-identical files"))
+    conds.append(Cond("hash_seed_processes", hash_seed_processes, concrete=True, group="contract-validation", bounds="5 real pytest processes (PYTHONHASHSEED 0 / 1 / 2 / 3 / 12345) creating sets of str/int/tuple/bytes/complex and nested frozensets of strs (orderable and not orderable): byte-identical files"))
     return conds
 
 
